@@ -15,6 +15,7 @@ import Biogo.Generated.Alphabets
 import Biogo.Model.ContWorld
 import Biogo.Proofs.Containers
 import Biogo.Proofs.ContFrame
+import Biogo.Proofs.ContAln
 
 namespace Biogo.Properties.C05
 open Biogo.Alphabet Biogo.Containers Biogo.Go
@@ -197,5 +198,57 @@ example :
     let w := runOps cx (initWorld cx "multi" 1 rows) [.clone 0, .revComp 1]
     ((w.objs.map fun o => (o.rowsV w.cells).map fun r => (r.start, r.«end»))
       = [[(0, 5), (2, 8)], [(3, 8), (0, 6)]]) := by decide
+
+/-! ### alignment.Seq and alignment.QSeq (column-stored) -/
+
+/-- **revcomp_spec (alignment.Seq, alignment.QSeq).** For an alignment whose columns are
+    well formed (`ColsWF`: every column an allocated slice of `n` cells, pairwise different
+    arrays): after `RevComp` the list of columns is the reversed list with every letter
+    complemented and every quality travelling with its letter; so every row `r < n` reads
+    (`Row(r).At` over the span) as the reverse complement of what it read; the alignment's
+    strand is negated; `Start`/`End` and the row annotations are unchanged. -/
+theorem revcomp_spec_alignment (cx : Ctx) (h : Cells) (a : Aln) (n : Nat) (hw : ColsWF h n a.cols) :
+    (a.revComp cx h).2.cols.map (a.revComp cx h).1.read
+        = (a.cols.map h.read).reverse.map (List.map (compQL cx.comp)) ∧
+    (∀ r, r < n → (a.revComp cx h).2.rowLetters (a.revComp cx h).1 r
+        = (a.rowLetters h r).reverse.map (compQL cx.comp)) ∧
+    (a.revComp cx h).2.strand = -a.strand ∧ (a.revComp cx h).2.start = a.start ∧
+    (a.revComp cx h).2.«end» = a.«end» ∧ (a.revComp cx h).2.subs = a.subs :=
+  let r := Aln.revComp_spec cx h a n hw
+  ⟨r.1, r.2.1, r.2.2.1, r.2.2.2.1, r.2.2.2.2.1, r.2.2.2.2.2.1⟩
+
+/-- **revcomp_involutive (alignment.Seq, alignment.QSeq).** -/
+theorem revcomp_involutive_alignment (cx : Ctx) (h : Cells) (a : Aln) (n : Nat) (hw : ColsWF h n a.cols)
+    (hinv : ∀ c ∈ a.cols, ∀ x ∈ h.read c, cx.comp (cx.comp x.L) = x.L) :
+    let r1 := a.revComp cx h
+    let r2 := r1.2.revComp cx r1.1
+    (∀ r, r2.2.rowLetters r2.1 r = a.rowLetters h r) ∧
+    r2.2.strand = a.strand ∧ r2.2.start = a.start ∧ r2.2.«end» = a.«end» :=
+  let r := Aln.revComp_twice cx h a n hw hinv
+  ⟨r.2.1, r.2.2⟩
+
+/-- `alignment.Seq.Reverse` reverses the list of columns; twice is the identity -/
+theorem reverse_involutive_alignment (a : Aln) :
+    a.reverse.cols = a.cols.reverse ∧ a.reverse.reverse.cols = a.cols := by
+  have h1 : a.reverse.cols = a.cols.reverse := twoPtr_reverse a.cols
+  refine ⟨h1, ?_⟩
+  have h2 : a.reverse.reverse.cols = a.reverse.cols.reverse := twoPtr_reverse a.reverse.cols
+  rw [h2, h1, List.reverse_reverse]
+
+-- non-vacuity: the alignment the constructor builds from three rows of three letters is well formed
+example :
+    let cx : Ctx := { comp := fun l => l, gap := 45, amb := 110,
+                      alpha := ⟨[], 0, fun _ => false, fun _ => -1, 45, 110, false⟩, grow := growExact }
+    let w := initWorld cx "qaln" 1 [⟨true, 0, 1, 0, [⟨65, 30⟩, ⟨67, 31⟩, ⟨71, 32⟩]⟩,
+                                   ⟨true, 0, 1, 1, [⟨71, 20⟩, ⟨71, 21⟩, ⟨84, 22⟩]⟩]
+    (match w.objs with
+     | [.aln a] => a.cols.length = 3 ∧ ColsWF w.cells 2 a.cols
+     | _ => False) := by
+  simp only [initWorld]
+  refine ⟨by decide, ⟨?_, by decide⟩⟩
+  intro c hc
+  simp only [ColValid]
+  revert c
+  decide
 
 end Biogo.Properties.C05
